@@ -114,11 +114,11 @@ def doBuilds (H : Harness) (stop : Option Nat) : List Nat → St κ β → St κ
 def persistAll (c : RunC κ) (dp : DP) (files : List (FP κ β)) : List (FP κ β) :=
   c.files.foldl (fun fs f => fs.modify f (persist benchOf c.key dp)) files
 
-/-- `_eval_output`: data points numbered from 1 (the adapters' numbering) -/
+/-- `_eval_output`: data points numbered from 1 (the adapters' numbering), each written with its total last -/
 def recordDPs (c : RunC κ) (inv : Nat) : Nat → List (List Meas) → List (FP κ β) → List (FP κ β)
   | _, [], files => files
   | j, ms :: rest, files =>
-    recordDPs c inv (j + 1) rest (persistAll benchOf c { inv := inv, it := j + 1, ms := ms } files)
+    recordDPs c inv (j + 1) rest (persistAll benchOf c { inv := inv, it := j + 1, ms := totalLast ms } files)
 
 def setRun (s : St κ β) (i : Nat) (r : RunSt) : St κ β := { s with runs := s.runs.set i r }
 
@@ -265,6 +265,18 @@ def sessionsT (colsOf : κ → List (List Char)) (rtK : κ → κ) (rtB : β →
     let r := sessionT benchOf colsOf rtK rtB cfg H sched order choices stop contents
     r :: sessionsT colsOf rtK rtB cfg H rest r.contents
 
+/-- a history in which some sessions are started with `-c` / `--clean`: `_FilePersistence.__init__`
+truncates the data file before anything of it is read (persistence.py, `discard_old_data`), so such a
+session starts from empty files -/
+def sessionsClean (colsOf : κ → List (List Char)) (rtK : κ → κ) (rtB : β → β) (cfg : List (RunC κ)) (H : Harness) :
+    List (Bool × Sched × List Nat × List Nat × Option Nat) → List (List (Line κ β)) →
+    List (List (List (Line κ β)) × SessionResult κ β)       -- (contents the session started from, result)
+  | [], _ => []
+  | (clean, sched, order, choices, stop) :: rest, contents =>
+    let c0 := if clean then contents.map (fun _ => []) else contents
+    let r := sessionT benchOf colsOf rtK rtB cfg H sched order choices stop c0
+    (c0, r) :: sessionsClean colsOf rtK rtB cfg H rest r.contents
+
 end
 
 /-! ## Vocabulary of the C08 statements -/
@@ -288,7 +300,7 @@ def recordedInTheEnd {κ : Type} (H : Harness) (c : RunC κ) (i : Nat) : Nat :=
 /-- the data points of one invocation as `_eval_output` numbers them (from `j + 1`) -/
 def numberDPs (inv : Nat) : Nat → List (List Meas) → List DP
   | _, [] => []
-  | j, ms :: rest => { inv := inv, it := j + 1, ms := ms } :: numberDPs inv (j + 1) rest
+  | j, ms :: rest => { inv := inv, it := j + 1, ms := totalLast ms } :: numberDPs inv (j + 1) rest
 
 /-- the measurement rows (run, invocation, iteration, measurement) of invocation `inv` of run `i` -/
 def rowsOf {κ : Type} (cfg : List (RunC κ)) (H : Harness) (i inv : Nat) : List (κ × Nat × Nat × Meas) :=
